@@ -33,14 +33,15 @@ func init() {
 			"oracle: reference rule for 'honoured' and the never-downgrade invariant; distinct = shape hash (store size, events, kind, signer, KeyInfo, clock mode, outcome) per step",
 		Directed:   c02Directed,
 		Run:        c02Run,
-		MustHit:    []string{"clock=nb", "clock=nb-1ns", "clock=na", "clock=na+1ns", "signer=untrusted", "signer=trusted-cert-foreign-key", "signer=tampered", "signer=twin-cert-not-in-store", "no_keyinfo", "store=0", "store=1", "store>=2", "store_error", "idp_key_rollover", "cert_retired", "store_replaced", "sp_restart", "kind=both-badR", "same_issuer_serial"},
+		MustHit:    []string{"clock=nb", "clock=nb-1ns", "clock=na", "clock=na+1ns", "signer=untrusted", "signer=trusted-cert-foreign-key", "signer=tampered", "signer=twin-cert-not-in-store", "no_keyinfo", "store=0", "store=1", "store>=2", "store_error", "idp_key_rollover", "cert_retired", "store_replaced", "sp_restart", "kind=both-badR", "same_issuer_serial", "assertions_signed_by_different_parties"},
 		RandomRuns: map[string]int{"quick": 6000, "thorough": 60000},
 		Assumptions: []string{"X.509 validity is inclusive at both ends (NotBefore <= now <= NotAfter), certificate identity is DER equality",
 			"the SP certificate chain is never checked by the library, so stub certificates are issued by a stub CA"},
 	})
 }
 
-// draw order per run: steps; per step: event, kind, signer, keyinfo, clock, storeErr
+// draw order per run: steps, store size, then the plans of all three possible steps
+// (event, kind, signer, keyinfo, clock, storeErr, nSel, badSel each), then everything else
 func c02Directed(tier string) [][]uint64 {
 	var out [][]uint64
 	for kind := uint64(0); kind < uint64(len(c02Kinds)); kind++ {
@@ -52,6 +53,14 @@ func c02Directed(tier string) [][]uint64 {
 					}
 					ev := (kind + signer + clock) % 6
 					out = append(out, []uint64{0, 0, ev, kind, signer, ki, clock, 0})
+					if kind == 1 && signer != 0 && signer != 5 && clock == 0 {
+						// unsigned Response with 2-3 signed assertions of which only the last / only the first is bad
+						for nSel := uint64(1); nSel < 3; nSel++ {
+							for badSel := uint64(1); badSel < 3; badSel++ {
+								out = append(out, []uint64{0, 0, 0, kind, signer, ki, clock, 0, nSel, badSel})
+							}
+						}
+					}
 				}
 			}
 		}
@@ -68,7 +77,7 @@ func c02Directed(tier string) [][]uint64 {
 	// two-step histories: deliver, then event, then deliver again
 	for ev := uint64(1); ev < 6; ev++ {
 		for kind := uint64(0); kind < 5; kind++ {
-			out = append(out, []uint64{1, 0, 0, kind, 0, 0, 0, 0, ev, kind, (ev + kind) % 2 * 5, 0, 0, 0})
+			out = append(out, []uint64{1, 0, 0, kind, 0, 0, 0, 0, 0, 0, ev, kind, (ev + kind) % 2 * 5, 0, 0, 0})
 		}
 	}
 	return out
@@ -83,6 +92,12 @@ func c02Run(r *core.Run) {
 	t := r.Tape
 	steps := 1 + t.Int(3, "c02.steps")
 	sizeSel := t.Int(5, "c02.storesize") // 0 => 1 member (plainest); k => k-1 members
+	type stepPlan struct{ ev, kind, signer, keyinfo, clock, storeErr, nSel, badSel int }
+	var plans [3]stepPlan
+	for i := range plans {
+		plans[i] = stepPlan{t.Int(6, "c02.event"), t.Int(len(c02Kinds), "c02.kind"), t.Int(len(c02Signers), "c02.signer"), t.Int(2, "c02.keyinfo"),
+			t.Int(len(c02ClockModes), "c02.clock"), t.Int(12, "c02.storeerr"), t.Int(3, "c02.n"), t.Int(3, "c02.badsel")}
+	}
 	s := NewStd(r)
 	s.DrawLive()
 	s.DrawClockKnobs()
@@ -121,12 +136,13 @@ func c02Run(r *core.Run) {
 	attCert := world.MintCert(attackerKey, s.Epoch.Add(-hour), s.Epoch.Add(100*hour), 0)
 
 	for step := 0; step < steps && !r.Failed(); step++ {
-		ev := t.Int(6, "c02.event") // 0 none 1 rollover(add) 2 retire 3 replace store object 4 restart 5 rollover+retire
-		kind := t.Int(len(c02Kinds), "c02.kind")
-		signer := t.Int(len(c02Signers), "c02.signer")
-		keyInfo := t.Int(2, "c02.keyinfo") == 0
-		clock := t.Int(len(c02ClockModes), "c02.clock")
-		storeErr := t.Int(12, "c02.storeerr") // 1..3: fail on that call of this delivery
+		pl := plans[step]
+		ev := pl.ev // 0 none 1 rollover(add) 2 retire 3 replace store object 4 restart 5 rollover+retire
+		kind := pl.kind
+		signer := pl.signer
+		keyInfo := pl.keyinfo == 0
+		clock := pl.clock
+		storeErr := pl.storeErr // 1..3: fail on that call of this delivery
 		if storeErr > 3 {
 			storeErr = 0
 		}
@@ -256,6 +272,7 @@ func c02Run(r *core.Run) {
 			return o
 		}
 		var m *world.LResponse
+		mainAssertion, mixedGood := 0, false
 		switch kname {
 		case "logout-request":
 			m = world.GenLogout(t, s.IdP, s.Fed, now, "LogoutRequest")
@@ -265,14 +282,26 @@ func c02Run(r *core.Run) {
 			m = world.GenLogout(t, s.IdP, s.Fed, now, "LogoutResponse")
 			m.Sign = mkSig(signCert, signKey)
 		default:
-			m = world.GenResponse(t, s.IdP, s.Fed, now, 1+t.Int(2, "c02.n"), false)
+			m = world.GenResponse(t, s.IdP, s.Fed, now, 1+pl.nSel, false)
 			switch kname {
 			case "response":
 				m.Sign = mkSig(signCert, signKey)
 			case "assertions":
-				for _, a := range m.Assertions {
-					a.Sign = mkSig(signCert, signKey)
+				// badSel 0: every assertion is signed by the step's signer; 1: only the last one,
+				// 2: only the first one (the others by a trusted member)
+				for i, a := range m.Assertions {
+					byMain := pl.badSel == 0 || len(m.Assertions) == 1 || (pl.badSel == 1 && i == len(m.Assertions)-1) || (pl.badSel == 2 && i == 0)
+					if byMain {
+						a.Sign = mkSig(signCert, signKey)
+						mainAssertion = i
+					} else {
+						a.Sign = mkSig(goodCert, goodKey)
+						mixedGood = true
+					}
 					a.Sign.EmptyURI = false
+				}
+				if mixedGood {
+					r.Probe("assertions_signed_by_different_parties")
 				}
 			case "both-badR", "both-good":
 				m.Sign = mkSig(signCert, signKey)
@@ -292,7 +321,7 @@ func c02Run(r *core.Run) {
 			// altered signed content, after signing: the IssueInstant of the signed element
 			tid := m.ID
 			if kname == "assertions" {
-				tid = m.Assertions[0].ID
+				tid = m.Assertions[mainAssertion].ID
 			}
 			nx, ok := tamperInstant(xml, tid)
 			if !ok {
@@ -347,6 +376,9 @@ func c02Run(r *core.Run) {
 			return used.KeyIdx == key && !tampered
 		}
 		hMain := honoured(signCert, signKey, tamper)
+		if mixedGood {
+			hMain = hMain && honoured(goodCert, goodKey, false)
+		}
 		expectAccept := hMain
 		if kname == "both-badR" || kname == "both-good" {
 			// the root signature decides; a good assertion signature never rescues a bad root
